@@ -1,5 +1,6 @@
 import IkeProofs.RefineReg.Dh
 import IkeProofs.Theorems.C09
+import IkeProofs.RefineSa.RandNum
 
 /-! # C09 over the code as translated from the current source (`security/dh`, `tools/go2lean`)
 
@@ -41,5 +42,61 @@ theorem C09_gen_shared (x y : Nat) :
 
 /-- `big.Int.Exp` as translated is modular exponentiation -/
 theorem C09_gen_exp (x y m : Nat) (hm : 0 < m) : Go.bigExp x y m = x ^ y % m := bigExp_eq_pow_mod x y m hm
+
+/-! ### the private exponent: `security.GenerateRandomNumber` / `CalculateDiffieHellmanMaterials` as translated
+
+`crypto/rand.Reader` is the explicit state `Rand` (an octet stream and the read that fails, if any);
+`crypto/rand.Int` is `Go.randInt` (rejection sampling over ⌈bitLen(max−1)/8⌉ octets per draw, as the standard
+library does); the package-level bounds are what the translated `init()` computes from the source's literals. -/
+
+open Ike.RefineSa in
+/-- the bounds the translated `init()` sets: 2^2048 − 1 and 2^128 − 1 -/
+theorem C09_gen_bounds : Gen.security.init_ {} = .ok secG ∧
+    secG.randomNumberMaximum = 2 ^ 2048 - 1 ∧ secG.randomNumberMinimum = 2 ^ 128 - 1 :=
+  ⟨security_init_ok, secG_bounds.1, secG_bounds.2⟩
+
+open Ike.RefineSa in
+/-- C09, range: EVERY exponent the translated `GenerateRandomNumber` returns — whatever the random source delivers —
+lies in [2^128, 2^2048 − 1) -/
+theorem C09_gen_exponent_range (r r' : Rand) (n : Nat)
+    (h : Gen.security.GenerateRandomNumber secG r = .ok (r', n)) : 2 ^ 128 ≤ n ∧ n < 2 ^ 2048 - 1 :=
+  GenerateRandomNumber_range r r' n h
+
+open Ike.RefineSa in
+/-- C09, drawn from the source: the exponent IS the first 256 octets the source delivers when they are in range
+(otherwise the next 256, and so on: `GenerateRandomNumber_nth_draw`); one read of the source per draw -/
+theorem C09_gen_exponent_is_draw (r : Rand) (hnf : r.failAt ≠ some r.reads) (d : Nat)
+    (hd : d = beNat (cyc r.buf r.pos 256)) (hlo : 2 ^ 128 ≤ d) (hhi : d < 2 ^ 2048 - 1) :
+    Gen.security.GenerateRandomNumber secG r = .ok ({ r with reads := r.reads + 1, pos := r.pos + 256 }, d) :=
+  GenerateRandomNumber_first_draw r hnf d hd hlo hhi
+
+open Ike.RefineSa in
+/-- C09, failure ⇒ error: a number is returned only if every read up to then succeeded; a source failing at the
+first read gives an error; and an error is always a failure of the source -/
+theorem C09_gen_failure_is_error (r : Rand) :
+    (r.failAt = some r.reads → Gen.security.GenerateRandomNumber secG r = .err) ∧
+    (∀ r' n, Gen.security.GenerateRandomNumber secG r = .ok (r', n) →
+      r'.reads > r.reads ∧ ∀ i, r.reads ≤ i → i < r'.reads → r.failAt ≠ some i) ∧
+    (Gen.security.GenerateRandomNumber secG r = .err → ∃ i, r.reads ≤ i ∧ r.failAt = some i) :=
+  ⟨GenerateRandomNumber_fail r, fun r' n h => GenerateRandomNumber_no_number_on_failure r r' n h,
+   GenerateRandomNumber_err_source r⟩
+
+open Ike.RefineSa in
+/-- the only way the translation of the sampling loop "faults" is its 64-iteration bound: 64 consecutive successful
+reads all out of range (probability < 2^-122000 for a uniform source) -/
+theorem C09_gen_exponent_fault (r : Rand) (h : Gen.security.GenerateRandomNumber secG r = .fault) :
+    ∀ j, j < 64 → r.failAt ≠ some (r.reads + j) ∧ ¬ (2 ^ 128 ≤ drawAt r j ∧ drawAt r j < 2 ^ 2048 - 1) :=
+  GenerateRandomNumber_fault r h
+
+open Ike.RefineSa in
+/-- `CalculateDiffieHellmanMaterials` as translated: on success the exponent is in range, the local public value is
+g^x mod p and the shared secret peer^x mod p of the SA's group, both of the modulus length -/
+theorem C09_gen_dh_materials (r r' : Rand) (k : Gen.security.IKESAKey) (hk : RefineReg.DhWF k.DhInfo)
+    (peer pub sh : Bytes)
+    (h : Gen.security.CalculateDiffieHellmanMaterials secG r k peer = .ok (r', pub, sh)) :
+    ∃ x : Nat, Gen.security.GenerateRandomNumber secG r = .ok (r', x) ∧ 2 ^ 128 ≤ x ∧ x < 2 ^ 2048 - 1 ∧
+      dhPub (RefineReg.absGroup k.DhInfo) x = .ok pub ∧
+      dhShared (RefineReg.absGroup k.DhInfo) x (beNat peer) = .ok sh :=
+  CalculateDiffieHellmanMaterials_ok r r' k hk peer pub sh h
 
 end Ike
